@@ -4,7 +4,7 @@ CONSTANTS
   Keeps = {0, 1, 2, 3, 4}
   Sets = {0, 1, 2}
   MaxRuns = 6
-  Bases = {0, 536870910, 1073741821, 536870912}
+  Bases = {0, 536870910, 1073741821, 1073741822, 536870912}
   Variant = "intended"
 CONSTRAINT RunBound
 INVARIANT Emit
